@@ -46,7 +46,8 @@ func (w *world) rollback(op WOp) {
 	}
 	// the property quantifies over changes that were committed after the
 	// checkpoint: exactly one commit since SaveRoot and nothing uncommitted on top
-	if w.afterCP != 1 || !w.clean {
+	// ... with at most one collector pass in between
+	if w.afterCP != 1 || !w.clean || w.gcSinceB > 1 {
 		w.stats.Inc("skipped.rollback-outside-quantifier")
 		return
 	}
